@@ -116,8 +116,8 @@ def main():
         good = [s for s in seqs if cgr_spec(s.encode('utf-8'), size) is not None][:50]
         cases += 1
         if [[tuple(p) for p in r] for r in cg.vectorise_batch(good)] != [cgr_spec(s.encode('utf-8'), size) for s in good]: fail(what='CgrComputer.vectorise_batch', size=size)
-    # counts beyond 2^24 (where a single-precision accumulator stops counting): thorough tier only (17 M bases)
-    if thorough:
+    # counts beyond 2^24 (where a single-precision accumulator stops counting): one sequence of 17 M bases
+    if True:
         n = 17_000_000
         big = 'A' * n
         for norm in (False, True):
